@@ -57,6 +57,20 @@ def fromStation (lat lon alt : R) (st : List R) : List R :=
   let m := topoM lat lon
   add3 (mulVec3 m (st.take 3)) (stationPos lat lon alt) ++ mulVec3 m (st.drop 3)
 
+/-- `Frame.transform` from the frame of station A to the frame of station B (cartesian state given in A's frame), both stations
+created under the same Earth-fixed parent: `m @ orb + offset` where `m = Orientation.convert_to` walks the orientation graph
+A -> parent -> B (`inv(expand(_m_B)) @ expand(_m_A)`, the inverse of a rotation being its transpose) and `offset = Center.convert_to`
+walks the centre graph A -> Earth -> B, every link offset being turned into B's orientation
+(`A_to_Earth` gives `m_Bᵀ s_A`, `B_to_Earth` taken backwards gives `-(m_Bᵀ s_B)`); stations are at rest: no velocity offset. -/
+def stationToStation (latA lonA altA latB lonB altB : R) (st : List R) : List R :=
+  let mA := topoM latA lonA
+  let mB := topoM latB lonB
+  let p := mulVecT3 mB (mulVec3 mA (st.take 3))
+  let v := mulVecT3 mB (mulVec3 mA (st.drop 3))
+  let oA := mulVecT3 mB (stationPos latA lonA altA)
+  let oB := mulVecT3 mB (stationPos latB lonB altB)
+  add3 p (sub3 oA oB) ++ v
+
 /-- `np.linalg.norm` of a 3-vector -/
 def norm3 (x y z : R) : R := sqrt (x * x + y * y + z * z)
 
